@@ -144,7 +144,7 @@ def expiry_examines_all(ctx, rule='expiry-examines-all'):
                    'retain): a point issued before a modification survives', loc=b.loc)
         else:
             r.ok(rule, 'retain', 'every path to the return passes the retain over the whole queue', loc=c.loc)
-    cls = db.find_bodies(r'^server::session::Session::remove_expired_browse_continuation_points::\{closure#\d+\}$')
+    cls = db.find_bodies(r'^server::session::Session::remove_expired_browse_continuation_points(::\{closure#\d+\})*$')
     pred = [x for x in cls if x.locals[0] == 'bool']
     if len(pred) != 1:
         r.lost(rule, 'predicate', 'retain predicate not found')
@@ -165,10 +165,14 @@ def expiry_examines_all(ctx, rule='expiry-examines-all'):
         s_ = None
         if len(ds) == 1 and ds[0][0] == 'stmt':
             s_ = Fv.sym_rvalue(ds[0][3], 0, ds[0][1])
-        elif len(ds) == 1 and ds[0][0] == 'call' and ds[0][2].callee.rsplit('::', 1)[-1] in ('ge', 'eq') and len(ds[0][2].args) == 2:
-            s_ = ('bin', {'ge': 'Ge', 'eq': 'Eq'}[ds[0][2].callee.rsplit('::', 1)[-1]], Fv.sym_operand(ds[0][2].args[0]), Fv.sym_operand(ds[0][2].args[1]))
+        elif len(ds) == 1 and ds[0][0] == 'call' and ds[0][2].callee.rsplit('::', 1)[-1] in ('ge', 'le', 'eq') and len(ds[0][2].args) == 2:
+            s_ = ('bin', {'ge': 'Ge', 'le': 'Le', 'eq': 'Eq'}[ds[0][2].callee.rsplit('::', 1)[-1]], Fv.sym_operand(ds[0][2].args[0]), Fv.sym_operand(ds[0][2].args[1]))
+        # either spelling: point >= last_modified, or last_modified <= point
+        if s_ is not None and s_[0] == 'bin' and s_[1] == 'Le':
+            s_ = ('bin', 'Ge', s_[3], s_[2])
         t = fmt_sym(v, s_) if s_ is not None else ''
-        if s_ is not None and s_[0] == 'bin' and s_[1] in ('Ge', 'Eq') and 'address_space_last_modified' in fmt_sym(v, s_[2]) and 'last_modified(' in fmt_sym(v, s_[3]):
+        if s_ is not None and s_[0] == 'bin' and s_[1] in ('Ge', 'Eq') and (('address_space_last_modified' in fmt_sym(v, s_[2]) and 'last_modified(' in fmt_sym(v, s_[3])) or
+                (s_[1] == 'Eq' and 'address_space_last_modified' in fmt_sym(v, s_[3]) and 'last_modified(' in fmt_sym(v, s_[2]))):
             r.ok(rule, 'is_valid', 'valid iff the point is not older than the last modification: %s' % t[:100], loc=v.loc)
         else:
             r.fail(rule, 'is_valid', 'is_valid_browse_continuation_point is not `point.address_space_last_modified >= address_space.last_modified()` (%s)' % t[:100], loc=v.loc)
